@@ -86,7 +86,7 @@ class C05(Check):
             program = workloads.generate(rng)
         variants = []
         for number in range(3):
-            variants.append({"gc": schedules.random_schedule(rng, self.startup, self.startup + 400),
+            variants.append({"gc": schedules.random_schedule(rng, self.startup, self.startup + 400, program.get("heavy", False)),
                              "arena": schedules.random_policy(rng, 0.35)})
         return {"kind": "diff", "program": program, "label": program["name"], "variants": variants,
                 "perturb": {"shift": rng.randrange(1, 64), "dummy_every": rng.choice([3, 5, 7, 11])}}
